@@ -141,6 +141,17 @@ func c03Program(w *W, r *rand.Rand, stratum string, tree *Node, bs []Binding, co
 				w.Fail("effects/"+kind+"/"+stratum, "observed fetches/operator calls differ from left-to-right short-circuit evaluation of the dumped tree\nexpected (?=optional): %s\nobserved:              %s\n%s\ndump: %s\nengine result: %s, reference error: %v",
 					effsText(env.Trace), effsText(rec.Effects), describeCase(v.Src, v.Cfg, b), oneLine(v.Dump), o, refErr)
 			}
+			// TryEval with every variable available evaluates the same program: the same effects are expected
+			rec2 := &Recorder{}
+			o2, _ := callExpr(v.E, CallTryEval, fetcherFor(b, rec2), nil, false)
+			w.Evals++
+			w.Inc("tryeval_traces_compared")
+			if o2.Panic != nil {
+				w.Fail("tryeval-panic/"+normPanic(o2.Panic)+"@"+panicSite(o2.Stack), "TryEval panicked: %v\n%s\n%s", o2.Panic, describeCase(v.Src, v.Cfg, b), o2.Stack)
+			} else if !matchEffects(env.Trace, rec2.Effects) {
+				w.Fail("effects/tryeval-all-available/"+stratum, "TryEval with every variable available performs other fetches/operator calls than left-to-right short-circuit evaluation of the dumped tree\nexpected (?=optional): %s\nobserved:              %s\n%s\ndump: %s\nTryEval result: %s",
+					effsText(env.Trace), effsText(rec2.Effects), describeCase(v.Src, v.Cfg, b), oneLine(v.Dump), o2)
+			}
 			cv := env.Cov
 			if cv.SkippedGets > 0 {
 				w.Inc("cases_with_skipped_fetch")
